@@ -142,9 +142,6 @@ end Heap
 /-! ### decoding -/
 
 def errJson : Err := "lib:ProvJSONException"
-def errKey : Err := "crash:KeyError"
-def errIndex : Err := "crash:IndexError"
-def errAttr : Err := "crash:AttributeError"
 def errUnspec : Err := "unspecified"
 
 /-- Python `str(x)` of a JSON scalar (the Literal constructor stringifies its value) -/
